@@ -19,4 +19,45 @@ def C13(s, known):
                             "key spellings (model); C13Trace: every scale crd lists or describes, and every refusal, judged by Theory.tla")
 
 
-PLANS = {"C13": C13}
+def C03(s, known):
+    s.build()
+    s.model("TheoryMC", workers=4)
+    m = s.drive("c03")
+    s.validate(m, "C03Trace", known=known)
+    return dict(level="model_checking",
+                explanation="all 12,936 single chords through the real `text conv syllable`, each judged by Theory.tla: interval number "
+                            "from letters, size from pitch distance, scale notes always accepted, refusals carry no output")
+
+
+def C14(s, known):
+    s.build()
+    s.model("CircleMC", workers=2)
+    m = s.drive("c14")
+    s.validate(m, "C14Trace", known=known)
+    return dict(level="model_checking",
+                explanation="CircleMC: the two-ring index mechanism refines pitch arithmetic from all 28 keys whichever spelling is read; algebraic "
+                            "laws as assumptions. C14Trace: every real `info key conv` run must print exactly Spellings(Fold(chain))")
+
+
+def C15(s, known):
+    s.build()
+    s.model("TheoryMC", workers=4)
+    m = s.drive("c15")
+    s.validate(m, "C15Trace", known=known)
+    return dict(level="model_checking",
+                explanation="TheoryMC: Size against a second formulation and Parse(Print(iv)) = iv for n<=64 x 7 qualities (model). C15Trace: every "
+                            "interval notation through the real `info attr describe` (size, canonical print, applied note, octave), every notation "
+                            "string up to the bound, `gen attr` validity/completeness, `info chord describe` for the dictionary")
+
+
+def C17(s, known):
+    s.build()
+    s.model("TheoryMC", workers=4)
+    m = s.drive("c17")
+    s.validate(m, "C17Trace", known=known)
+    return dict(level="model_checking",
+                explanation="TheoryMC: stacking thirds on every scale degree gives the textbook triad/seventh qualities and stays inside the scale "
+                            "(model). C17Trace: all 28 x 14 chords crd lists, through the whole real pipeline (describe -> text conv -> write -> SMF)")
+
+
+PLANS = {"C17": C17, "C15": C15, "C14": C14, "C13": C13, "C03": C03}
